@@ -9,62 +9,92 @@
    a constant (case-insensitively under -caseInsensitive) nor is a parsable trait constant.      *)
 From Coq Require Import String ZArith List Bool.
 From GT Require Import Base.GEnumStr.
-From GT Require Import GEnumModel GEnumProofs.
+From GT Require Import GEnumModel GEnumProofs GEnumTraitProofs.
 Import ListNotations.
 Local Open Scope string_scope.
 Local Open Scope list_scope.
 Local Open Scope Z_scope.
 
+(* Every theorem is stated for an ARBITRARY skeleton record k accepted by the executable predicate
+   skels_ok; the record regenerated from the template of the current tree is shown to satisfy it on
+   every check (coq/ties/Tie_GEnumSkel.v), the hand-written record of the current template does
+   (C05_skels_current_ok). *)
+Theorem C05_skels_current_ok : skels_ok cur_skels = true.
+Proof. exact cur_skels_ok. Qed.
+
 (* the JSON, text and YAML encodings of v are the primary name of v *)
-Theorem C05_encode_json : forall d o t, wf_defn d -> gen d o = Built t ->
-  forall v, encode_json t v = quote (string_spec d v).
-Proof. exact encode_json_spec. Qed.
-Theorem C05_encode_text : forall d o t, wf_defn d -> gen d o = Built t ->
-  forall v, encode_text t v = string_spec d v.
-Proof. exact encode_text_spec. Qed.
-Theorem C05_encode_yaml : forall d o t, wf_defn d -> gen d o = Built t ->
-  forall v, encode_yaml t v = string_spec d v.
-Proof. exact encode_yaml_spec. Qed.
+Theorem C05_encode_json : forall k, skels_ok k = true -> forall d o t, wf_defn d -> gen d o = Built t ->
+  forall v, encode_json_sk k t v = quote (string_spec d v).
+Proof. exact encode_json_sk_spec. Qed.
+Theorem C05_encode_text : forall k, skels_ok k = true -> forall d o t, wf_defn d -> gen d o = Built t ->
+  forall v, encode_text_sk k t v = string_spec d v.
+Proof. exact encode_text_sk_spec. Qed.
+Theorem C05_encode_yaml : forall k, skels_ok k = true -> forall d o t, wf_defn d -> gen d o = Built t ->
+  forall v, encode_yaml_sk k t v = string_spec d v.
+Proof. exact encode_yaml_sk_spec. Qed.
 
 (* decoding each of them yields v again (view soundness: the library's string reading of the
    encoded document is the emitted name — measured for every round trip by the farm) *)
-Theorem C05_roundtrip_json : forall d o t, wf_defn d -> gen d o = Built t ->
+Theorem C05_roundtrip_json : forall k, skels_ok k = true -> forall d o t, wf_defn d -> gen d o = Built t ->
   forall v jv, In v (values_spec (d_consts d)) -> jv_null jv = false ->
-  jv_string jv = Some (sem_string t v) -> decode_json t jv = Some v.
-Proof. exact roundtrip_json. Qed.
-Theorem C05_roundtrip_text : forall d o t, wf_defn d -> gen d o = Built t ->
+  jv_string jv = Some (sem_string t v) -> decode_json_sk k t jv = Some v.
+Proof. exact roundtrip_json_sk. Qed.
+Theorem C05_roundtrip_text : forall k, skels_ok k = true -> forall d o t, wf_defn d -> gen d o = Built t ->
   forall v tv, In v (values_spec (d_consts d)) ->
-  tv_text tv = sem_string t v -> decode_text t tv = Some v.
-Proof. exact roundtrip_text. Qed.
-Theorem C05_roundtrip_yaml : forall d o t, wf_defn d -> gen d o = Built t ->
-  forall v yv, In v (values_spec (d_consts d)) ->
-  yv_value yv = sem_string t v -> decode_yaml t yv = Some v.
-Proof. exact roundtrip_yaml. Qed.
+  tv_text tv = sem_string t v -> decode_text_sk k t tv = Some v.
+Proof. exact roundtrip_text_sk. Qed.
+Theorem C05_roundtrip_yaml : forall k, skels_ok k = true -> forall d o t, wf_defn d -> gen d o = Built t ->
+  forall v yv, In v (values_spec (d_consts d)) -> yv_scalar yv = true ->
+  yv_value yv = sem_string t v -> decode_yaml_sk k t yv = Some v.
+Proof. exact roundtrip_yaml_sk. Qed.
 
 (* input none of whose faithful readings is a defined name or a parsable trait value is rejected
    by all three decoders — never silently mapped to some enum value *)
-Theorem C05_reject_json : forall d o t jv, gen d o = Built t ->
+Theorem C05_reject_json : forall k, skels_ok k = true -> forall d o t jv, gen d o = Built t ->
   (forall x, reading (jv_string jv) (jv_u64 jv) (jv_i64 jv) (jv_native jv) t x -> rejectable d o t x) ->
-  decode_json t jv = None.
-Proof. exact reject_json_readings. Qed.
-Theorem C05_reject_text : forall d o t tv, gen d o = Built t ->
+  decode_json_sk k t jv = None.
+Proof. exact reject_json_sk. Qed.
+Theorem C05_reject_text : forall k, skels_ok k = true -> forall d o t tv, gen d o = Built t ->
   (forall x, reading (Some (tv_text tv)) None None (tv_native tv) t x -> rejectable d o t x) ->
-  decode_text t tv = None.
-Proof. exact reject_text_readings. Qed.
-Theorem C05_reject_yaml : forall d o t yv, gen d o = Built t ->
+  decode_text_sk k t tv = None.
+Proof. exact reject_text_sk. Qed.
+Theorem C05_reject_yaml : forall k, skels_ok k = true -> forall d o t yv, gen d o = Built t ->
   (forall x, reading (Some (yv_value yv)) (yv_u64 yv) (yv_i64 yv) (yv_native yv) t x -> rejectable d o t x) ->
-  decode_yaml t yv = None.
-Proof. exact reject_yaml_readings. Qed.
+  decode_yaml_sk k t yv = None.
+Proof. exact reject_yaml_sk. Qed.
+
+(* the hypothesis of the rejection theorems follows from the DEFINITION: a reading that names no constant and
+   is not the constant of a cell in a column declared parsable is rejectable *)
+Theorem C05_rejectable_def : forall d o t x, wf_defn d -> gen d o = Built t ->
+  ~ names_constant d o x -> is_parsable_trait_value d o x = false -> rejectable d o t x.
+Proof. exact rejectable_def. Qed.
+
+(* non-vacuity: the hypothesis of C05_reject_yaml holds for the scalar `garbage` on P0/P1/P2 with the parsable
+   trait Code = 0/7/9 — every well-formed decoder rejects it (the pinned one decoded it to P0, see below) *)
+Theorem C05_example_reject : forall k, skels_ok k = true -> forall t, gen yw_defn yw_opts = Built t ->
+  decode_yaml_sk k t yw_garbage = None.
+Proof. exact garbage_rejected. Qed.
 
 (* the literal null holds neither a name nor a trait value: rejected outright.  Before fix
    C05-json-null-rejected json.Unmarshal's no-op readings "" / 0 of null were tried: for P0/P1/P2 with the
    parsable trait Code = 0/7/9, null decoded to P0 *)
-Theorem C05_reject_json_null : forall t jv, jv_null jv = true -> decode_json t jv = None.
-Proof. exact decode_json_null. Qed.
+Theorem C05_reject_json_null : forall k, skels_ok k = true -> forall t jv, jv_null jv = true -> decode_json_sk k t jv = None.
+Proof. exact decode_json_null_sk. Qed.
 Theorem C05_reject_json_null_orig_refuted :
   exists t, gen yw_defn yw_opts = Built t
             /\ decode_json_nullok t null_view = Some 0 /\ decode_json t null_view = None.
 Proof. exact decode_null_refuted. Qed.
+
+(* a YAML sequence or mapping node holds no scalar (yaml.v3 hands it to UnmarshalYAML with Value ""):
+   a well-formed decoder checks the node kind first (fix C05-yaml-nonscalar-rejected, 7d1071e) and refuses it.
+   Before the fix the document `[1, 2]` decoded to the value whose parsable string trait is "" *)
+Theorem C05_reject_yaml_nonscalar : forall k, skels_ok k = true ->
+  forall t yv, yv_scalar yv = false -> decode_yaml_sk k t yv = None.
+Proof. exact decode_yaml_nonscalar_sk. Qed.
+Theorem C05_reject_yaml_nonscalar_orig_refuted :
+  exists t, gen es_defn es_opts = Built t
+            /\ decode_yaml_anykind t es_seq = Some 0 /\ decode_yaml t es_seq = None.
+Proof. exact decode_yaml_anykind_refuted. Qed.
 
 (* integer readings always fit the 64-bit trait kinds; for narrower trait types the decoders check
    that the conversion is lossless before calling Parse<T> (reading: conv_int … z = z) *)
@@ -92,6 +122,14 @@ Theorem C05_reject_yaml_orig_refuted :
             /\ decode_yaml_orig t yw_garbage = Some 0 /\ decode_yaml_orig t yw_seven = None
             /\ decode_yaml t yw_garbage = None /\ decode_yaml t yw_seven = Some 1.
 Proof. exact decode_yaml_orig_refuted. Qed.
+(* the skeletons of those earlier decoders are not sound / not null-checked: the well-formedness
+   predicate is what separates them from the current ones *)
+Theorem C05_earlier_skeletons_rejected :
+  steps_sound CoYAML (yaml_steps_gen2 false false CvTyped) = false
+  /\ steps_sound CoYAML (yaml_steps_gen true CvTyped) = false
+  /\ steps_sound CoJSON (json_steps_gen true CvTyped) = false
+  /\ null_checked (json_steps_gen false CvChecked) = false.
+Proof. exact yaml_orig_unsound. Qed.
 
 Example C05_example_wf : wf_defn yw_defn.
 Proof.
@@ -100,6 +138,12 @@ Proof.
   - repeat constructor; simpl; intuition discriminate.
 Qed.
 
+Print Assumptions C05_skels_current_ok.
+Print Assumptions C05_rejectable_def.
+Print Assumptions C05_example_reject.
+Print Assumptions C05_reject_yaml_nonscalar.
+Print Assumptions C05_reject_yaml_nonscalar_orig_refuted.
+Print Assumptions C05_earlier_skeletons_rejected.
 Print Assumptions C05_encode_json.
 Print Assumptions C05_encode_text.
 Print Assumptions C05_encode_yaml.
